@@ -51,7 +51,7 @@ func runC03(c *Ctx) {
 		}
 		L.Check(ok, "lexer-eof", r.label, "Scan() at end of input", c.P.Pos(r.F.Pos()), "returns the EOF token ("+got+")", "at end of input Scan() may return "+got+" instead of the EOF token: parsers cannot see the end of the file")
 	}
-	L.Floor("lexer-eof", 6, "six lexers")
+	L.Floor("lexer-eof", 3, "six lexers (floor = half of the instances on the pinned tree: a clean-up may merge instances, a rule that sees nothing must still fail)")
 
 	nTok := 0
 	for _, fn := range scope {
@@ -91,7 +91,7 @@ func runC03(c *Ctx) {
 			}
 		}
 	}
-	L.Floor("eof-loop", 30, "token loops of the six lexers and parsers counted on the pinned tree")
+	L.Floor("eof-loop", 15, "token loops of the six lexers and parsers counted on the pinned tree (floor = half of the instances on the pinned tree: a clean-up may merge instances, a rule that sees nothing must still fail)")
 
 	// (2) unchecked indices: compiler residual + linear bounds + justified table
 	bscope := map[*ssa.Function]bool{}
@@ -158,7 +158,7 @@ func runC03(c *Ctx) {
 		pkgs = append(pkgs, "./"+r+"/")
 	}
 	c.checkBCE("unchecked-index", pkgs, bscope, c03Justified, 5)
-	L.Floor("unchecked-index", 5, "residual index expressions of the parser scope on the pinned tree")
+	L.Floor("unchecked-index", 2, "residual index expressions of the parser scope on the pinned tree (floor = half of the instances on the pinned tree: a clean-up may merge instances, a rule that sees nothing must still fail)")
 	L.Rule("table-index-safe", "every index into the partition table is within bounds on every path, using the struct invariant length == len(partitions)")
 	L.Rule("struct-invariant", "the two fields are written only in the constructor, from the same value")
 	L.Rule("window-domain", "on every path to a success return the integer arguments satisfy the documented domain, and no error return guarded by a comparison on those arguments is reachable for arguments inside the domain")
@@ -379,7 +379,7 @@ func (c *Ctx) checkNonEmptyResult() {
 			L.Unknown("nonempty-result", r.label, "success return", c.P.Pos(fn.Pos()), "no success return found")
 		}
 	}
-	L.Floor("nonempty-result", 5, "five format parsers")
+	L.Floor("nonempty-result", 2, "five format parsers (floor = half of the instances on the pinned tree: a clean-up may merge instances, a rule that sees nothing must still fail)")
 	// sentinel: Length() compared with 0
 	nS := 0
 	for _, fn := range c.P.SrcFuncs() {
